@@ -205,43 +205,18 @@ example : frameBody [] { len := 390, ftype := .settings, flags := 0, sid := 0 } 
 example : frameBody [1,2,3,4,5,6] { len := 6, ftype := .settings, flags := 1, sid := 0 } = .fail FRAME_SIZE_ERROR := by
   decide
 
-/-- The first SETTINGS of a connection is parsed by `settings_frame` directly.
-    When the length is a multiple of 6, or when `h2.rs` repeats the length check
-    in that state (`Consts.h2FirstSettingsChecksLen`, re-extracted from the
-    source on every run), the verdict is the one of the `frame_body` path. -/
-theorem C15_first_settings_partial (i : Bytes)
-    (h6 : Consts.h2FirstSettingsChecksLen = true ∨ i.length % Consts.h2SettingsEntrySize = 0) :
-    firstSettings i = frameBody i { len := i.length, ftype := .settings, flags := 0, sid := 0 } := by
-  have hack : flagSet 0 Consts.h2FlagAck = false := by decide
-  unfold firstSettings frameBody
-  rcases h6 with h | h
-  · by_cases h6 : i.length % Consts.h2SettingsEntrySize = 0 <;> simp [h, h6, hack]
-  · simp [h, hack]
+/-- The first SETTINGS of a connection is parsed by `settings_frame` directly
+    (`H2State::ClientSettings`), not through `frame_body`. Since the repair of
+    F24 that state repeats the multiple-of-6 check (`Consts.h2FirstSettingsChecksLen`
+    is re-extracted from `h2.rs` on every run and is `true`; if the check
+    disappears the flag flips and this theorem no longer compiles), so for every
+    payload the verdict is the one of the `frame_body` path. -/
+theorem C15_first_settings_checked (i : Bytes) :
+    firstSettings i = frameBody i { len := i.length, ftype := .settings, flags := 0, sid := 0 } :=
+  firstSettings_eq_frameBody i (Or.inl (by decide))
 
-/-- … and as long as the check is absent (F24) a first SETTINGS whose length is
-    not a multiple of 6 (RFC 9113 §6.5: FRAME_SIZE_ERROR) is accepted, the tail
-    bytes being dropped. -/
-theorem C15_first_settings_counterexample (hopen : Consts.h2FirstSettingsChecksLen = false) :
-    firstSettings [0, 3, 0, 0, 0, 100, 0] = .ok (.settings [(3, 100)] false) [] ∧
-    frameBody [0, 3, 0, 0, 0, 100, 0] { len := 7, ftype := .settings, flags := 0, sid := 0 }
-      = .fail FRAME_SIZE_ERROR := by
-  refine ⟨?_, by decide⟩
-  unfold firstSettings
-  rw [hopen]
-  decide
-
-/-- Whatever shape the code has today: either the first-SETTINGS path enforces
-    the multiple-of-6 rule for every payload, or the 7-byte witness is accepted.
-    (No edit is needed here when F24 is repaired: the flag flips, this theorem
-    and the two above keep checking, and the harness then expects the GOAWAY.) -/
-theorem C15_first_settings_rule_or_witness :
-    (Consts.h2FirstSettingsChecksLen = true ∧
-      ∀ i : Bytes, firstSettings i = frameBody i { len := i.length, ftype := .settings, flags := 0, sid := 0 }) ∨
-    (Consts.h2FirstSettingsChecksLen = false ∧
-      firstSettings [0, 3, 0, 0, 0, 100, 0] = .ok (.settings [(3, 100)] false) []) := by
-  cases h : Consts.h2FirstSettingsChecksLen with
-  | true => exact Or.inl ⟨rfl, fun i => C15_first_settings_partial i (Or.inl h)⟩
-  | false => exact Or.inr ⟨rfl, (C15_first_settings_counterexample h).1⟩
+/-- regression of F24: the 7-byte first SETTINGS is refused with FRAME_SIZE_ERROR -/
+example : firstSettings [0, 3, 0, 0, 0, 100, 0] = .fail FRAME_SIZE_ERROR := by decide
 
 /-- on either path the number of entries respects the allocation cap -/
 theorem C15_first_settings_cap {i : Bytes} {es : List (Nat × Nat)} {ack : Bool} {rest : Bytes}
